@@ -547,6 +547,9 @@ def parse_cpp(out):
             red = None
         elif cur is None:
             continue
+        elif t[0] == "VLP":
+            red = {"maxi": t[2] == "max", "off": F(0), "cols": [], "rows": []}
+            cur["vlp"] = red
         elif t[0] == "RLP":
             red = {"maxi": t[2] == "max", "off": lpgen.dy2fr(lpgen.parse_kv(l)["off"]), "cols": [], "rows": []}
             cur["red"] = red
@@ -575,6 +578,21 @@ def parse_cpp(out):
     return runs
 
 
+def near_fixed(trace):
+    """does the walk contain a FixVariablePS whose recorded bounds are equal up to rounding but not bitwise (fixColumn fixes
+    on EQrel(lower, upper, feastol), FixVariablePS::execute marks FIXED only on lower == upper)?"""
+    for k in trace["order"]:
+        st = trace["steps"][k]
+        if st["name"] != "FixVariable":
+            continue
+        a = lpgen.parse_kv(st["S"])
+        if a["lower"] != a["upper"]:
+            lo, up = dyf(a["lower"]), dyf(a["upper"])
+            if abs(lo - up) <= 1e-6 * max(1.0, abs(lo), abs(up)):
+                return True
+    return False
+
+
 def agg_rebasing(trace):
     """does the walk contain an AggregationPS::execute that moved the remaining variable into the basis (the branch of the
     known finding)?"""
@@ -601,7 +619,7 @@ def main():
     checker = vlib.build_model("C01")
     model = vlib.build_model("C08")
     S = sc.Session(ck, exe01, checker)
-    nlp, nvert, nmax = (150, 4, 7) if ck.tier == "quick" else (3000, 12, 12)
+    nlp, nvert, nmax = (150, 4, 7) if ck.tier == "quick" else (10000, 12, 12)
     nalt = 3 if ck.tier == "quick" else 8
     r = ck.rng
     lps, tagsets = [], []
@@ -777,14 +795,18 @@ def main():
                 if res == "UNBOUNDED" and cl[0] == "infeasible":
                     ck.count("note:UNBOUNDED-verdict-on-infeasible-lp(dual-infeasible-reading)")
                 if wrong:
-                    ck.violation("verdict-false:%s-for-%s" % (wrong, cl[0]), "simplifier verdict %s for an LP certified %s (exact certificate accepted by the proved "
-                                 "checker), keepbounds=%s seed=%s, reductions %s" % (wrong, cl[0], keep, seed, hist), base)
+                    vt = ""
+                    if ru.get("vlp") and any(0 < abs(c[0]) <= F(1, 10**9) for c in ru["vlp"]["cols"]):
+                        vt = ":roundoff-objective"
+                    ck.violation("verdict-false:%s-for-%s%s" % (wrong, cl[0], vt), "simplifier verdict %s for an LP certified %s (exact certificate accepted by the proved "
+                                 "checker), keepbounds=%s seed=%s, reductions %s" % (wrong, cl[0], keep, seed, hist),
+                                 dict(base, lp_at_verdict=[[float(c[0]), None if c[1] is None else float(c[1]), None if c[2] is None else float(c[2])] for c in ru["vlp"]["cols"]] if ru.get("vlp") else None))
                     continue
             if res == "OKAY":
                 if not ru["verts"]:
                     sts = sorted(set(ru["rsolve"]))
                     if cl is not None and cl[0] == "optimal" and sts and all(s in ("INFEASIBLE", "UNBOUNDED", "INForUNBD") for s in sts):
-                        ck.violation("reduced-lp-not-equivalent:%s" % "+".join(sts), "the reduced LP of an LP with certified finite optimum is reported %s by "
+                        ck.violation("reduced-lp-not-equivalent:%s%s" % ("+".join(sts), ":tightenbounds" if "TightenBounds" in hist else ""), "the reduced LP of an LP with certified finite optimum is reported %s by "
                                      "every solver setting" % sts, dict(base, reduced_lp=ru.get("redlp").text("reduced") if ru.get("redlp") else None))
                     ck.count("reduced-solve:" + "+".join(sts or ["none"]))
             # postsolved solutions
@@ -797,6 +819,8 @@ def main():
                     tags.append("multiaggregation")
                 if "TightenBounds" in hist:
                     tags.append("tightenbounds")
+                if tr is not None and near_fixed(tr):
+                    tags.append("nearfixed")
                 rep = dict(base, vertex_of_reduced_lp=ru["verts"].get(vid), unsimplified=u,
                            reduced_lp=(ru["redlp"].text("reduced") if ru.get("redlp") else None))
                 if "error" in u:
@@ -835,7 +859,10 @@ def main():
                 bad, incons = basis_problems(p, u["rs"].rstrip(","), u["cs"].rstrip(","), x, s)
                 if bad:
                     cat = "count" if bad[0].startswith("count") else bad[0].split(":")[-1]
-                    ck.violation("basis-invalid:%s:%s" % (cat, "+".join(tags) or "plain"), "the unsimplified basis is not valid for the original LP: %s (reductions %s)" % (bad, hist),
+                    btag = "+".join(tags) or "plain"
+                    if cat == "fixed-with-unequal-bounds" and "DoubletonEquation" in hist:
+                        btag = "doubletonequation"
+                    ck.violation("basis-invalid:%s:%s" % (cat, btag), "the unsimplified basis is not valid for the original LP: %s (reductions %s)" % (bad, hist),
                                  dict(rep, basis_problems=bad))
                 if incons:
                     ck.count("note:basis-status-inconsistent-with-point")
